@@ -23,6 +23,8 @@ pub struct ArchM {
     /// last generation observed per position through the hook (C08 early warning)
     pub slot_gens: Vec<u32>,
     pub preset: bool,
+    /// last value of the public `Archetype::version()` and the removal count at that time
+    pub pub_ver: Option<(u64, u64)>,
     pub created_ev: Vec<Bits>,
     pub destroyed_ev: Vec<Bits>,
 }
@@ -57,7 +59,7 @@ impl Model {
         Model {
             archs: caps
                 .iter()
-                .map(|c| ArchM { len: 0, cap: *c, removals: 0, creations: 0, ver: 1, ver_obs: 0, rem_at_obs: 0, slot_gens: Vec::new(), preset: false, created_ev: Vec::new(), destroyed_ev: Vec::new() })
+                .map(|c| ArchM { len: 0, cap: *c, removals: 0, creations: 0, ver: 1, ver_obs: 0, rem_at_obs: 0, slot_gens: Vec::new(), preset: false, pub_ver: None, created_ev: Vec::new(), destroyed_ev: Vec::new() })
                 .collect(),
             ents: BTreeMap::new(),
             by_arch: caps.iter().map(|_| BTreeSet::new()).collect(),
